@@ -19,7 +19,12 @@ RULE = ("seeded P-code generator with ~45 % UOD command lines (Short/Long/Long2/
         "commands, cancel_instruction of a running instance, user Pause/Hold/Unpause/Unhold, Stop, Restart, Start after "
         "Stop). distinct = shape hash of method + event kinds; non-trivial = at least 2 command instances and at least "
         "one conflict (same-name/overlapping request while the older instance is alive), cancel, failure or stop with a "
-        "live instance")
+        "live instance. 30 % of these runs use a UOD declared with 2-4 overlap lists drawn from the seed over "
+        "Long/Long2/Other/Drive1/Short/Fail in which at least one command is a member of several lists (e.g. [Long, Long2], "
+        "[Other, Long2], [Other, Short]); a second, directed stratum uses such UODs with a sequence of 2-6 single requests "
+        "of the listed commands in a seeded order (every order arises), one request per tick, issued as consecutive method "
+        "lines, separated by Mark/Wait lines, or injected 1-4 ticks apart while the earlier multi-tick commands still run, "
+        "optionally followed by a Stop; two commands conflict iff they share ANY declared overlap list")
 ASSUMPTIONS = [
     "'execute' is observed as a call of the command's exec function; an instance is alive from its init call to its "
     "finalize call; callbacks are logged by the rig UOD with cmd.instance_id",
@@ -34,7 +39,13 @@ ASSUMPTIONS = [
     "CommandRequest.from_user, CommandManager.schedule and Tracking.mark_cancelled (classifiers only)",
 ]
 REQUIRED = {"instances_checked": 300, "exec_events": 1000, "conflicts_older_cancelled": 20, "cancel_requests": 5,
-            "stops_with_live_instance": 5, "failed_instances": 5, "quiescence_checks": 100}
+            "stops_with_live_instance": 5, "failed_instances": 5, "quiescence_checks": 100,
+            # UODs with several overlap lists sharing commands (generated + directed stratum)
+            "multi_overlap_runs": 300, "directed_multi_overlap_runs": 100, "multi_overlap_instances_checked": 800,
+            "multi_overlap_conflicts_with_command_in_several_lists": 200,
+            "multi_overlap_conflicts_via_later_declared_list": 60,
+            "multi_overlap_conflicts_older_cancelled": 150,
+            "multi_overlap_single_request_conflict_ticks": 150}
 
 OVERLAP = (frozenset(("Long", "Long2")),)
 INJECT = ("Long\n", "Long2\n", "Other\n", "Fail\n", "Short\n", "Drive1\n", "Long\nLong2\n", "Mark: inj\nLong\n",
@@ -49,14 +60,86 @@ def conflicts(a: str, b: str) -> bool:
 
 def plan(tier, seed):
     n = 2400 if tier == "quick" else 60000
+    nd = 480 if tier == "quick" else 9600       # directed multi-overlap runs (short: 2-6 requests, no structure)
     shards = 16 if tier == "quick" else 48
-    return [{"seed": seed * 1000003 + i, "n": n // shards, "max_depth": 3 if tier == "quick" else 4}
+    return [{"seed": seed * 1000003 + i, "n": n // shards, "n_directed": nd // shards,
+             "max_depth": 3 if tier == "quick" else 4}
             for i in range(shards)]
+
+
+# pool of the multi-overlap configurations: the multi-tick commands (weighted up) plus Short and Fail
+OV_POOL = ("Long", "Long2", "Other", "Drive1", "Long", "Long2", "Other", "Drive1", "Short", "Fail")
+MULTI_CMDS = ("Long", "Long2", "Other", "Drive1", "Short", "Long", "Long2", "Other", "Drive1", "Set1: 3")
+MULTI_INJECT = ("Long\n", "Long2\n", "Other\n", "Drive1\n", "Short\n", "Fail\n", "Other\n", "Drive1\n",
+                "Long\nOther\n", "Mark: inj\nLong2\n", "Drive1\nLong2\n")
+
+
+def gen_overlaps(rnd: random.Random) -> list[list[str]]:
+    """2-4 overlap lists of 2-3 commands each, pairwise different as sets, at least one command in >= 2 lists.
+    The order of the lists and of the names inside a list is part of the configuration."""
+    while True:
+        lists: list[list[str]] = []
+        for _ in range(rnd.choice([2, 2, 3, 3, 4])):
+            size = rnd.choice([2, 2, 2, 3])
+            o: list[str] = []
+            while len(o) < size:
+                c = rnd.choice(OV_POOL)
+                if c not in o:
+                    o.append(c)
+            lists.append(o)
+        if len({frozenset(o) for o in lists}) != len(lists):
+            continue
+        flat = [c for o in lists for c in o]
+        if any(flat.count(c) >= 2 for c in flat):
+            return lists
+
+
+def gen_directed(rnd: random.Random):
+    """Directed multi-overlap run: a seeded sequence of single requests of commands from the overlap lists, at most one
+    request per tick, the earlier (multi-tick) ones still running when the next arrives."""
+    overlaps = gen_overlaps(rnd)
+    listed = sorted({c for o in overlaps for c in o})
+    multi = [c for c in listed if c not in ("Short",)]
+    k = rnd.choice([2, 3, 3, 4, 4, 5, 6])
+    # a permutation of the listed commands (every order arises over the seeds), continued with repeats if k is larger
+    perm = rnd.sample(multi, len(multi))
+    seq = perm[:k]
+    while len(seq) < k:
+        seq.append(rnd.choice(listed))
+    long_n = rnd.choice([3, 4, 6, 8, 8])
+    mode = rnd.choice(["method", "method_spaced", "inject", "mixed"])
+    sched: list[list] = []
+    lines = ["Base: s"]
+    t = rnd.randint(3, 6)
+    for i, c in enumerate(seq):
+        by_method = mode in ("method", "method_spaced") or (mode == "mixed" and i % 2 == 0)
+        if by_method:
+            if mode != "method" and i and rnd.random() < 0.6:
+                lines.append(rnd.choice(["Mark: m%d" % i, "Wait: 0.2s", "Wait: 0.4s"]))
+            lines.append(c)
+        else:
+            sched.append([t, "inject", c + "\n"])
+            t += rnd.randint(1, 4)
+    if mode in ("inject", "mixed"):
+        lines.append("Wait: %.1fs" % (0.1 * (t + 2)))     # keep the method running while the injections arrive
+    last = t + (2 * len(seq) if mode != "inject" else 0)
+    r = rnd.random()
+    if r < 0.35:
+        sched.append([last + rnd.randint(0, 6), "user", "Stop"])
+    elif r < 0.45:
+        sched.append([last + rnd.randint(0, 6), "user", "Restart"])
+    elif r < 0.55:
+        sched.append([last + rnd.randint(0, 3), "cancel", rnd.randint(0, 3)])
+    sched.sort(key=lambda s: s[0])
+    return {"text": "\n".join(lines) + "\n", "traj": [0.0], "long_n": long_n, "fail_at": rnd.randint(1, 3),
+            "sched": sched, "overlaps": overlaps, "directed": mode}
 
 
 def gen_case(rnd: random.Random, max_depth=3):
     from opv.rigs.cmd_rig import CmdGen, CMDS
-    cmds = CMDS + (("Fail",) if rnd.random() < 0.3 else ())
+    overlaps = gen_overlaps(rnd) if rnd.random() < 0.3 else None      # None = the rig's standard single [Long, Long2]
+    cmds = (CMDS if overlaps is None else MULTI_CMDS) + (("Fail",) if rnd.random() < 0.3 else ())
+    inject = INJECT if overlaps is None else MULTI_INJECT
     g = CmdGen(rnd, p_uod=0.45, uod_cmds=cmds, max_depth=max_depth,
                allow=("mark", "uod", "wait", "block", "watch", "alarm", "macro", "thr", "pausehold", "blank"),
                thr_values=("0.2", "0.5", "1", "0", "0.3"), allow_stop=rnd.random() < 0.2)
@@ -73,7 +156,7 @@ def gen_case(rnd: random.Random, max_depth=3):
         kind = rnd.choice(["inject", "inject", "inject", "user" if user_uod else "inject", "cancel", "cancel", "stop",
                            "restart", "pause", "hold"])
         if kind == "inject":
-            sched.append([t, "inject", rnd.choice(INJECT)])
+            sched.append([t, "inject", rnd.choice(inject)])
         elif kind == "user":
             sched.append([t, "user", rnd.choice(USER_CMDS)])
             if rnd.random() < 0.3:      # a second request before the same tick
@@ -93,8 +176,11 @@ def gen_case(rnd: random.Random, max_depth=3):
             sched.append([t, "user", "Hold"])
             sched.append([t + rnd.randint(1, 6), "user", "Unhold"])
     sched.sort(key=lambda s: s[0])
-    return {"text": text, "traj": trajectory(rnd, 200), "long_n": rnd.choice([1, 2, 3, 4, 4, 6, 8]),
+    case = {"text": text, "traj": trajectory(rnd, 200), "long_n": rnd.choice([1, 2, 3, 4, 4, 6, 8]),
             "fail_at": rnd.randint(0, 3), "sched": sched}
+    if overlaps is not None:
+        case["overlaps"] = overlaps
+    return case
 
 
 def check_case(case, res: Result):
@@ -105,7 +191,15 @@ def check_case(case, res: Result):
     CR.install_schedule_hook()
     CR.reset_request_hooks()
     CR.REQS.clear()
-    rig = R.EngineRig(case["text"], long_n=case["long_n"], fail_at=case["fail_at"])
+    ov = case.get("overlaps")
+    if ov is None:
+        overlaps = [sorted(o) for o in OVERLAP]
+        rig = R.EngineRig(case["text"], long_n=case["long_n"], fail_at=case["fail_at"])
+    else:
+        overlaps = [list(o) for o in ov]
+        rig = R.EngineRig(case["text"], uod_factory=CR.overlap_uod_factory(overlaps, case["long_n"], case["fail_at"]))
+    conflicts = CR.make_conflicts(overlaps)      # same name, or both in ANY one declared overlap list
+    multi = ov is not None
     raw: list[tuple] = []            # (mech, msg, involved instance ids)
     sched = [tuple(s) for s in case["sched"]]
     last_sched = max([s[0] for s in sched], default=0)
@@ -155,6 +249,7 @@ def check_case(case, res: Result):
                 if stopped_for >= 3 or rig.k - last_ev_tick >= 32:
                     break
         log = list(rig.cmdlog)
+        declared = [list(o) for o in rig.uod.overlapping_command_names_lists]
         end_tick = rig.k
         end_state = rig.state
         leftover = sorted(rig.uod.command_instances)
@@ -169,6 +264,8 @@ def check_case(case, res: Result):
         rig.close()
 
     # ---------------------------------------------------------------- oracle over the callback log
+    if declared != overlaps:
+        raise RuntimeError(f"harness: UOD declares overlap lists {declared}, case asked for {overlaps}")
     res.count("cancel_requests", cancels)
     res.count("stops_with_live_instance", live_at_stop_request)
     per: dict[str, list] = {}
@@ -257,6 +354,32 @@ def check_case(case, res: Result):
             if oe[0][0] < t_init and oe[-1][1] == "fin" and oe[-1][0] == t_init and o in alive_at_tick_start.get(t_init, ()):
                 older_cancelled += 1
     res.count("conflicts_older_cancelled", older_cancelled)
+    if multi:
+        res.count("multi_overlap_runs")
+        if case.get("directed"):
+            res.count("directed_multi_overlap_runs")
+            res.count("directed_" + case["directed"])
+        res.count("multi_overlap_instances_checked", len(order))
+        # request of a command while an instance of a *different* conflicting command was alive at the start of the tick
+        for iid in order:
+            nm, t_init = name_of[iid], per[iid][0][0]
+            if per[iid][0][1] != "init":
+                continue
+            mine = [o for o in overlaps if nm in o]             # declared lists with the requested command, in order
+            for o in alive_at_tick_start.get(t_init, ()):
+                onm = name_of[o]
+                if o == iid or onm == nm or not conflicts(onm, nm):
+                    continue
+                res.count("multi_overlap_conflicts")
+                if len(mine) >= 2:
+                    res.count("multi_overlap_conflicts_with_command_in_several_lists")
+                    if onm not in mine[0]:
+                        # the running command shares only a later declared list with the requested one
+                        res.count("multi_overlap_conflicts_via_later_declared_list")
+                    if per[o][-1][1] == "fin" and per[o][-1][0] == t_init:
+                        res.count("multi_overlap_conflicts_older_cancelled")
+                if len([x for x in overlaps if onm in x]) >= 2:
+                    res.count("multi_overlap_conflicts_with_running_command_in_several_lists")
 
     # (3) quiescence
     def fin_tick(iid):
@@ -280,9 +403,10 @@ def check_case(case, res: Result):
 
     kinds = sorted({s[1] + ":" + str(s[2]).split("\n")[0] for s in sched})
     interesting = len(order) >= 2 and (conflict_seen or cancels or failed or live_at_stop_request)
-    res.case((shape_hash(case["text"]), kinds) if interesting else None,
+    ov_key = tuple(tuple(o) for o in overlaps) if multi else None
+    res.case((shape_hash(case["text"]), kinds, ov_key) if interesting else None,
              sample={"method": case["text"], "sched": case["sched"], "long_n": case["long_n"], "instances": len(order),
-                     "conflicts": conflict_seen, "ticks": end_tick})
+                     "conflicts": conflict_seen, "ticks": end_tick, "overlaps": overlaps})
     # ---- narrow classifiers
     # (a) two or more mutually conflicting requests were dequeued by the same command-manager tick. The newest is
     #     executed first, cancels "by name" (hitting the instance of a third, older request or nothing at all) and is
@@ -290,6 +414,16 @@ def check_case(case, res: Result):
     burst = CR.burst_tainted(reqs, alive_at_tick_start, name_of, conflicts, UOD_NAMES)
     n_burst = len(burst)
     res.count("same_tick_conflicting_request_bursts", n_burst)
+    if multi:
+        # ticks whose only new UOD request conflicts, through a different command name, with an instance alive at the
+        # start of that tick: the situation in which a violation can never be a same-tick burst
+        per_tick_reqs: dict[int, list] = {}
+        for q in reqs:
+            per_tick_reqs.setdefault(q[0], []).append(q)
+        for t, qs in per_tick_reqs.items():
+            if len(qs) == 1 and any(name_of[a] != qs[0][1] and conflicts(name_of[a], qs[0][1])
+                                    for a in alive_at_tick_start.get(t, ()) if a in name_of):
+                res.count("multi_overlap_single_request_conflict_ticks")
 
     seen_req: dict[str, int] = {}
     for q in reqs:
@@ -365,6 +499,9 @@ def run_shard(spec):
     rnd = random.Random(spec["seed"])
     for _ in range(spec["n"]):
         check_case(gen_case(rnd, spec.get("max_depth", 3)), res)
+    rnd = random.Random(spec["seed"] * 7919 + 17)
+    for _ in range(spec.get("n_directed", 0)):
+        check_case(gen_directed(rnd), res)
     return res
 
 
